@@ -1,0 +1,36 @@
+//! Verification hooks (only compiled with `--cfg glass_easel_verif`).
+//!
+//! Re-exports of crate-private pure helpers so that an external harness can
+//! drive them directly. Nothing here changes behaviour.
+
+pub fn path_resolve(base: &str, rel: &str) -> String {
+    crate::path::resolve(base, rel)
+}
+
+pub fn path_normalize(path: &str) -> String {
+    crate::path::normalize(path)
+}
+
+pub fn gen_lit_str(s: &str) -> String {
+    crate::escape::gen_lit_str(s)
+}
+
+pub fn escape_html_body(s: &str) -> String {
+    crate::escape::escape_html_body(s).into_owned()
+}
+
+pub fn escape_html_quote(s: &str) -> String {
+    crate::escape::escape_html_quote(s).into_owned()
+}
+
+pub fn dash_to_camel(s: &str) -> String {
+    crate::escape::dash_to_camel(s).to_string()
+}
+
+pub fn entities_decode(entity: &str) -> Option<String> {
+    crate::entities::decode(entity).map(|x| x.into_owned())
+}
+
+pub fn get_var_name(var_id: usize) -> String {
+    crate::proc_gen::verif_get_var_name(var_id)
+}
